@@ -55,6 +55,19 @@ pub fn class_strategy(allow_zero_slots: bool, with_invalid: bool) -> BoxedStrate
                 .boxed(),
         ),
         (2, s().prop_map(ClassKind::Single).boxed()),
+        // class ids with gaps / not starting at 0
+        (
+            1,
+            (s(), s(), prop::sample::subsequence((0u8..8).collect::<Vec<_>>(), 2))
+                .prop_map(|(a, b, ids)| ClassKind::SimpleIds([a, b], [ids[0], ids[1]]))
+                .boxed(),
+        ),
+        (
+            1,
+            (s(), s(), s(), prop::sample::subsequence((0u8..8).collect::<Vec<_>>(), 3))
+                .prop_map(|(a, b, c, ids)| ClassKind::MovableIds([a, b, c], [ids[0], ids[1], ids[2]]))
+                .boxed(),
+        ),
     ];
     if with_invalid {
         alts.push((
